@@ -200,8 +200,8 @@ func (t *TargetClient) mapDBAndCollectionName(db, collection string) (string, st
 			return false
 		}
 		if sourceDB == db && (sourceCollection == "*" || collection == "") {
+			// keep scanning: the iteration order is undefined and a collection-level entry takes precedence
 			returnDB, _ = util.GetCollectionNameFromFull(target)
-			return false
 		}
 		return true
 	})
